@@ -828,3 +828,59 @@ def bound_samesrc(repo, res):
     mfp = _find(qs, r"L\.ForRange\((?P<iq>\w+), 0, (?P<np>\w+), body=\w+\)", "point loop")
     if mp.group("np") != mfp.group("np") or not re.search(rf"\b{mfp.group('iq')} = self\.backend\.symbols\.quadrature_loop_index\b", qs):
         res.fail(key, "the point loop is not `for iq in [0, num_points)`", eg.line(q.node))
+
+
+@rule(
+    "RESTRICTION-FLOW",
+    ["C02"],
+    "every call of a function that takes a `restriction` (symbols.entity, symbols.domain_dof_access, symbols.element_table, "
+    "access.table_access, ...) binds it - through the callee's signature - to the restriction of the modified terminal being "
+    "translated (`<mt>.restriction`) or to the caller's own `restriction` parameter; a constant or another terminal's "
+    "restriction would make '-' quantities read the '+' cell's entity / coordinates",
+    min_instances=12,
+)
+def restriction_flow(repo, res):
+    callees = {}
+    for m in repo.modules.values():
+        if not m.name.startswith("ffcx.codegeneration"):
+            continue
+        for f in m.funcs.values():
+            ps = [p for p in f.params if p != "self"]
+            if "restriction" in ps:
+                callees.setdefault(f.node.name, []).append((f, ps))
+    if len(callees) < 4:
+        raise AnalysisError(f"only {len(callees)} functions with a `restriction` parameter found")
+    n = 0
+    for m in repo.modules.values():
+        if not m.name.startswith("ffcx.codegeneration"):
+            continue
+        for f in m.funcs.values():
+            for c in calls_in(f.node):
+                nm = (call_name(c) or "").split(".")[-1]
+                if nm not in callees or not isinstance(c.func, ast.Attribute):
+                    continue
+                sigs = {tuple(ps) for _f, ps in callees[nm]}
+                if len(sigs) != 1:
+                    raise AnalysisError(f"callee `{nm}` is ambiguous")
+                ps = list(sigs.pop())
+                bound = {}
+                for i, a in enumerate(c.args):
+                    if i < len(ps):
+                        bound[ps[i]] = a
+                for k in c.keywords:
+                    if k.arg:
+                        bound[k.arg] = k.value
+                key = f"{f.key}:{nm}:{n}"
+                n += 1
+                res.ob(key)
+                res.functions.add(f.key)
+                a = bound.get("restriction")
+                if a is None:
+                    res.fail(key, f"{f.qualname}: `{ast.unparse(c)[:70]}` passes no restriction", m.line(c))
+                    continue
+                t = ast.unparse(a)
+                own = "restriction" in f.params and t == "restriction"
+                of_mt = isinstance(a, ast.Attribute) and a.attr == "restriction" and isinstance(a.value, ast.Name)
+                if not (own or of_mt):
+                    res.fail(key, f"{f.qualname}: `{ast.unparse(c)[:80]}` binds restriction to `{t}` instead of the restriction of the terminal being "
+                             "translated: for a '-' restricted quantity (n('-') on an interior facet) the '+' cell's local entity / coordinates would be used", m.line(c))
